@@ -348,7 +348,8 @@ Definition op_apply (s : st) (f : ltxrec) (fatal : bool) : outcome * st :=
   let s1 := fold_left (fun a kv => write_db_page a (fst kv) (snd kv)) (l_pages f) s in
   let wal1 := match alookup 1 (l_pages f) with Some q => if pg_wal q then true else wal_mode s | None => wal_mode s end in
   let '(s2, wal2) := if l_commit f =? 0
-                     then (with_wal (with_file s1 []) (wal_chk s1) (wal_latest s1) [], false)
+                     then (mkSt (writeable s1) (lockpg s1) [] (pageN s1) (wal_mode s1) [] [] (wal_chk s1) (wal_latest s1)
+                                [] (dirty s1) (txid s1) (chk s1) (ltxdir s1), false)
                      else (truncate_db s1 (l_commit f), wal1) in
   let s3 := with_pos s2 (l_commit f) wal2 (txid s2) (chk s2) (ltxdir s2) in
   match checksum s3 (l_commit f) [] with
@@ -363,7 +364,10 @@ Definition op_drop (s : st) : outcome * st :=
   if negb (writeable s) then (Failed, s)
   else
     let f := mkLtx (txid s + 1) (txid s + 1) (chk s) flag 0 [] in
-    let s1 := with_wal (with_file s []) [] [] [] in
+    (* files removed; page size, page checksums and WAL bookkeeping forgotten (db.go Drop, after the F10 repair) *)
+    let s0 := mkSt (writeable s) (lockpg s) [] (pageN s) (wal_mode s) [] [] (wal_chk s) (wal_latest s)
+                   (wal_file s) (dirty s) (txid s) (chk s) (ltxdir s) in
+    let s1 := with_wal s0 [] [] [] in
     (Done, with_pos s1 0 false (txid s + 1) flag (ltxdir s ++ [f])).
 
 (* Open db.go:481: header, recover (journal assumed absent between harness steps), checksums from the file, re-apply last LTX *)
